@@ -77,9 +77,12 @@ End MassNd.
 Section Concrete.
   Variable N : Num.
   Notation E := (ext N).
-  Variable U1 : nat -> E -> N.
+  (* V i x = marginal_tail_integral(i, x) as an EXTENDED number: for an infinite-activity margin the code has
+     U_i(0) = sign(0) * nu_i((0, inf)) = +inf, and that +inf is what the copula receives. *)
+  Variable V : nat -> E -> E.
   Variable cop : list E -> N.
   Variable d : nat.
+  Definition tail_val (i : nat) (x : E) : N := fin_val N (V i x).     (* the value where it is finite *)
   Fixpoint map2 {A B C : Type} (f : A -> B -> C) (l : list A) (m : list B) : list C :=
     match l, m with x :: l', y :: m' => f x y :: map2 f l' m' | _, _ => [] end.
   Definition nat_list_eqb (l m : list nat) : bool :=
@@ -88,10 +91,10 @@ Section Concrete.
     match indices with
     | None => n0 N
     | Some ind =>
-        if nat_list_eqb ind (seq 0 d) then cop (map2 (fun i xi => Fin (U1 i xi)) (seq 0 (length x)) x)
+        if nat_list_eqb ind (seq 0 d) then cop (map2 V (seq 0 (length x)) x)
         else match ind, x with
-             | [i0], x0 :: _ => U1 i0 x0
-             | _, _ => margin N cop ind d (map2 (fun i xi => Fin (U1 i xi)) ind x)
+             | [i0], x0 :: _ => tail_val i0 x0
+             | _, _ => margin N cop ind d (map2 V ind x)
              end
     end.
 End Concrete.
@@ -118,5 +121,6 @@ Definition step_U1 (margins : list (list (Q * Q * Q))) (i : nat) (x : ext Q) : Q
 Inductive copula_kind := Indep | Dep.
 Definition copula_q (c : copula_kind) : list (ext Q) -> Q :=
   match c with Indep => indep QNum | Dep => dep QNum end.
+Definition step_V (margins : list (list (Q * Q * Q))) (i : nat) (x : ext Q) : ext Q := Fin (step_U1 margins i x).
 Definition step_UI (c : copula_kind) (margins : list (list (Q * Q * Q))) : idx -> list (ext Q) -> Q :=
-  margin_tail_integral QNum (step_U1 margins) (copula_q c) (length margins).
+  margin_tail_integral QNum (step_V margins) (copula_q c) (length margins).
